@@ -100,6 +100,27 @@ CLAIMS = {
     note="Undecided: the asymptotic bound as a measured quantity.",
     technique="None-exactness lint on the route parameter, call-chain argument flow, finite truth-table evaluation of guards",
     ref="DESIGN.md 3/C18"),
+ "C05": dict(
+    text="Static enforcement skeleton of the field contract (not the contract itself): defaults are handed out through "
+         "copy_value, which recurses into sequences and dicts (R05a); every parse_value in the binding code is dominated "
+         "by is_no_input being false and a no-input field receives only its default (R05b); AbsenceError exactly under "
+         "is_required, nothing stored afterwards, defaults only when not required, is_required honours ignore_required / "
+         "always_no_input (R05c); parse_addition is the ordered switch False->ExceedError, falsy->drop, no type->keep, "
+         "type->convert (R05d); no_output gates before mapping stores, option precedence in get_default, lookup order "
+         "name->alias->case-insensitive (R05e).",
+    note="Undecided (the core): alias/case tables as values, mode strings, option interactions - needs a reference model "
+         "over declarations x inputs.",
+    technique="must-pass-through / dominating guard facts per enforcement point, dead-branch (ordering) check on the switch",
+    ref="DESIGN.md 3/C05"),
+ "C11": dict(
+    text="Static policy matrix: every catch-all handler around a conversion that consults an exclude/preserve policy is "
+         "partitioned by the policy literal - EXCLUDE warns, never raises and reaches no store / value return; PRESERVE "
+         "warns, never raises and reaches a store / return of exactly the raw element that failed; otherwise a ParseError "
+         "goes to handle_error; the policy attribute matches the element kind (R11a); required fields raise under EXCLUDE "
+         "(R11b); element parsers apply only operations every dispatched container type supports (R04c).",
+    note="Undecided: the metamorphic equality with the filtered input (value-level).",
+    technique="handler partition by policy atoms, CFG reachability of stores/returns per partition, provenance of the preserved element",
+    ref="DESIGN.md 3/C11"),
 }
 
 NOT_APPLICABLE = {
